@@ -2,6 +2,8 @@ import Proofs.Lemmas.Resp
 import Proofs.Lemmas.Mw
 import Model.RespCache
 import Generated.C13StatusSites
+import Proofs.Lemmas.RespLayer
+import Generated.C13LayerEntries
 /-!
 # C13 — HTTP response commits once; pre-commit status/headers reach the client;
 middlewares run in ascending priority, ties in registration order.
@@ -264,6 +266,176 @@ example : ¬ Coherent (fun c => !bodyAllowed c) (runSites (fun c => !bodyAllowed
 example : Coherent (fun c => !bodyAllowed c) (⟨200, false⟩ : CSt Bool) := by simp [Coherent, bodyAllowed]
 
 end cache
+
+/-! ### layers over one response: every layer entry commits what is pending when it returns
+
+A request passes through closure middlewares, class middlewares and the route handler; all of them share
+ONE `bufferedWriter` and every one of them is a handler of its own: it may answer by itself (not call
+`$next`), or touch the response after `$next` returned. `Model.RespLayer.runLayers` mirrors the layer
+entries (`beginResponse` + `defer commitPending`), `Spec.RespLayer` is the commit-once reference read in
+execution order across the layers, where the return of a layer with a status pending and nothing committed
+counts as the terminal call that commits it. -/
+section layers
+open Model.RespLayer Spec.RespLayer Proofs.RespLayer
+
+/-- for every stack whatsoever (any layer may or may not commit on return): once the request is over and
+what is still pending is committed, the layered run is the single-handler run of the lowered sequence —
+provided every layer that ran committed on return. -/
+theorem C13_layers_run_eq (e : Bool) (ls : List Layer) (hall : ∀ l ∈ ls, l.commits = true) :
+    (serveOn e ls).finish = Model.Resp.runOn e (flat ls) := by
+  unfold serveOn Model.Resp.runOn flat
+  rw [runLayers_eq, lower_sim (events ls) (events_rets ls hall) _ none false (track_init e)]
+
+/-- **Refinement for layered requests.** If every layer entry commits what is pending when it returns,
+then for every stack of layers (any depth, any operations before and after `$next`, any layer
+short-circuiting) the client receives exactly what the commit-once reference prescribes: the last status
+set before the first body byte / terminal call / return of a layer with a status pending, the headers set
+before that point, every body byte, and the connection sees one header commit. -/
+theorem C13_layers_refine (e : Bool) (ls : List Layer) (hne : ls ≠ [])
+    (hall : ∀ l ∈ ls, l.commits = true) :
+    (serveOn e ls).client = Spec.RespLayer.runOn e ls := by
+  obtain ⟨l, rest, rfl⟩ := List.exists_cons_of_ne_nil hne
+  have hfin := serve_finish e l rest (hall l List.mem_cons_self)
+  rw [← hfin, C13_layers_run_eq e _ hall, Spec.RespLayer.runOn]
+  cases e with
+  | false => exact C13_refines _
+  | true => exact C13_conn_refines _
+
+/-- **A layer that answers by itself with a bare status is heard.** Outer layers that only choose statuses /
+set headers before calling `$next`, then a layer that commits on return, does not call `$next` and only
+chooses statuses / sets headers: the client receives the last status chosen, committed once — whatever the
+inner layers are (they never run) and whether or not the outer layers commit on return. -/
+theorem C13_short_circuit_status_reaches_client (e : Bool) (outers inner : List Layer) (l : Layer)
+    (hout : ∀ o ∈ outers, o.calls = true ∧ ∀ x ∈ o.pre, committing x = false)
+    (hl : l.commits = true) (hcalls : l.calls = false)
+    (hops : ∀ x ∈ l.pre ++ l.post, committing x = false) (c : Nat)
+    (hst : lastStatus (outers.flatMap (·.pre) ++ (l.pre ++ l.post)) = some c) :
+    (serveOn e (outers ++ l :: inner)).client.status = c ∧
+    (serveOn e (outers ++ l :: inner)).client.commits = 1 := by
+  -- state reached when the short-circuiting layer returns: committed with status c
+  have key : ∀ (outers : List Layer) (s : St) (done : List Op),
+      (∀ o ∈ outers, o.calls = true ∧ ∀ x ∈ o.pre, committing x = false) → Pre e s done →
+      lastStatus (done ++ outers.flatMap (·.pre) ++ (l.pre ++ l.post)) = some c →
+      ∃ h b, Post e (runLayers s (outers ++ l :: inner)) c h b := by
+    intro outers
+    induction outers with
+    | nil =>
+      intro s done _ hp hls
+      have hp1 := pre_foldl e (l.pre ++ l.post) hops s done hp
+      simp only [List.flatMap_nil, List.append_nil] at hls
+      obtain ⟨p1, p2, p3, p4, p5⟩ := hp1
+      rw [hls] at p4 p5
+      simp only [List.nil_append, runLayers, hcalls, hl, if_true, Bool.false_eq_true, if_false,
+        ← List.foldl_append]
+      generalize (l.pre ++ l.post).foldl step s = t at p1 p2 p3 p4 p5 ⊢
+      have hf : t.finish = t.writeHeader c := by simp [St.finish, p1, p4, p5]
+      rw [hf]
+      exact ⟨_, "", fresh_writeHeader ⟨p1, p2⟩ c⟩
+    | cons o os ih =>
+      intro s done ho hp hls
+      have ho1 := ho o List.mem_cons_self
+      have hp1 := pre_foldl e o.pre ho1.2 s done hp
+      have hls' : lastStatus (done ++ o.pre ++ os.flatMap (·.pre) ++ (l.pre ++ l.post)) = some c := by
+        simpa [List.flatMap_cons, List.append_assoc] using hls
+      obtain ⟨h, b, hpost⟩ := ih (o.pre.foldl step s) (done ++ o.pre)
+        (fun x hx => ho x (List.mem_cons_of_mem _ hx)) hp1 hls'
+      have hpost2 := post_foldl e o.post _ _ _ _ hpost
+      simp only [List.cons_append, runLayers, ho1.1, if_true]
+      cases o.commits with
+      | false => exact ⟨h, _, hpost2⟩
+      | true => simp only [if_true]; rw [post_finish e _ _ _ _ hpost2]; exact ⟨h, _, hpost2⟩
+  obtain ⟨h, b, hp⟩ := key outers _ [] hout (pre_init e) (by simpa using hst)
+  have := post_client e _ _ _ _ hp
+  simp only [serveOn]
+  rw [this]
+  exact ⟨rfl, rfl⟩
+
+/-- **Negation witness (the layer that no longer commits).** A middleware that does not commit on return
+answers by itself with a bare `status(c)`: nothing is committed by anybody — the inner layers and their
+deferred commit never run — and the client receives net/http's implicit 200, whatever `c` was, whatever the
+inner layers are; the reference owes the client `c`. -/
+theorem C13_uncommitted_layer_loses_status (e : Bool) (c : Nat) (inner : List Layer) :
+    (serveOn e ({ commits := false, pre := [.status c], calls := false } :: inner)).client
+      = { status := 200, hdr := [], body := "", commits := 0 } ∧
+    (Spec.RespLayer.runOn e ({ commits := false, pre := [.status c], calls := false } :: inner)).status = c ∧
+    (Spec.RespLayer.runOn e ({ commits := false, pre := [.status c], calls := false } :: inner)).commits = 1 := by
+  refine ⟨by simp [serveOn, runLayers, step, St.setStatus, St.client, concat], ?_, ?_⟩ <;>
+  · cases e <;>
+      simp [Spec.RespLayer.runOn, Spec.Resp.runOn, Spec.Resp.runConn, flat, events, lower, statusOf, committing,
+        Spec.Resp.run, lastStatus]
+    all_goals (try split) <;> simp_all
+
+/-- the same after `$next`: the route handler (which commits on return) set only a header, the
+non-committing middleware then chooses the status — it is lost. -/
+theorem C13_uncommitted_layer_loses_late_status (e : Bool) (c : Nat) (k v : String) :
+    (serveOn e [{ commits := false, post := [.status c] }, { commits := true, pre := [.header k v], calls := false }]).client.status = 200 ∧
+    (serveOn e [{ commits := false, post := [.status c] }, { commits := true, pre := [.header k v], calls := false }]).client.commits = 0 := by
+  simp [serveOn, runLayers, step, St.setStatus, St.setHeader, St.finish, St.client]
+
+/-- **At most one header commit** reaches the connection for every stack, whichever layers commit. -/
+theorem C13_layers_single_commit (e : Bool) (ls : List Layer) : (serveOn e ls).wire.commits ≤ 1 := by
+  have h : Inv (serveOn e ls) := by
+    unfold serveOn; rw [runLayers_eq]; exact foldl_stepEv_inv _ _ (inv_init e)
+  rcases hh : (serveOn e ls).headerSent with _ | _
+  · have := (h.unsent hh).2.1; omega
+  · have := (h.sent hh).2; omega
+
+/-- from the regenerated table to the model: if no layer entry is listed as returning without a commit, then
+every stack made of those entries — with any script code in them — gives the client what the reference says. -/
+theorem C13_layer_entries_sound (f : EntryFacts) (hwf : f.violations = []) (e : Bool)
+    (stack : List (Entry × List Op × Bool × List Op)) (hne : stack ≠ [])
+    (hs : ∀ p ∈ stack, p.1 ∈ f.entries) :
+    (serveOn e (stack.map fun p => layerOf p.1 p.2.1 p.2.2.1 p.2.2.2)).client =
+      Spec.RespLayer.runOn e (stack.map fun p => layerOf p.1 p.2.1 p.2.2.1 p.2.2.2) := by
+  apply C13_layers_refine e _ (by simpa using hne)
+  intro l hl
+  obtain ⟨p, hp, rfl⟩ := List.mem_map.mp hl
+  show p.1.commits = true
+  cases hc : p.1.commits with
+  | true => rfl
+  | false =>
+    exfalso
+    have : p.1.fn ∈ f.violations := by
+      unfold EntryFacts.violations
+      exact List.mem_map.mpr ⟨p.1, List.mem_filter.mpr ⟨hs p hp, by simp [hc]⟩, rfl⟩
+    rw [hwf] at this
+    cases this
+
+/-- **Obligation on the current source: every layer entry commits pending.** Every function of
+std/net/http that obtains the response through `beginResponse` binds the writer and defers `commitPending`
+on it, there is at least one such function, and the translator found the shapes it expects. -/
+theorem C13_layer_entries_wf :
+    Generated.C13.layerEntries.violations = [] ∧ Generated.C13.layerEntries.shapeChanged = [] ∧
+    Generated.C13.layerEntries.entries ≠ [] := by decide
+
+/-- … hence every stack over the real layer entries gives the client what the reference says. -/
+theorem C13_layer_entries_refine (e : Bool) (stack : List (Entry × List Op × Bool × List Op)) (hne : stack ≠ [])
+    (hs : ∀ p ∈ stack, p.1 ∈ Generated.C13.layerEntries.entries) :
+    (serveOn e (stack.map fun p => layerOf p.1 p.2.1 p.2.2.1 p.2.2.2)).client =
+      Spec.RespLayer.runOn e (stack.map fun p => layerOf p.1 p.2.1 p.2.2.1 p.2.2.2) :=
+  C13_layer_entries_sound _ C13_layer_entries_wf.1 e stack hne hs
+
+/-- non-vacuity: a closure guard `header; status(403); return` in front of a handler that would write. -/
+example : (serveOn true [{ pre := [.header "X-Denied" "closure", .status 403], calls := false },
+      { pre := [.write "handler"], calls := false }]).client
+    = { status := 403, hdr := [("X-Denied", ["closure"])], body := "", commits := 1 } := by decide
+
+/-- a middleware that turns the handler's untouched response into a 404 after `$next`. -/
+example : (serveOn true [{ post := [.status 404] }, { pre := [.header "X-Handler" "ran"], calls := false }]).client
+    = { status := 404, hdr := [("X-Handler", ["ran"])], body := "", commits := 1 } := by decide
+
+/-- the handler's own bare status is committed when the handler returns: a status chosen by the middleware
+afterwards comes after the commit. -/
+example : (serveOn false [{ post := [.status 500] }, { pre := [.status 201], calls := false }]).client.status = 201 := by decide
+
+/-- the table of the tree in which the two middleware entries dropped the defer is rejected, naming them. -/
+example : EntryFacts.violations
+    { entries := [{ fn := "Handler.ServeHTTP", binds := true, defers := true },
+                  { fn := "ServerMiddlewareMethod.Call#1#1", binds := false, defers := false },
+                  { fn := "newMiddleware#1#1", binds := false, defers := false }],
+      shapeChanged := [] } = ["ServerMiddlewareMethod.Call#1#1", "newMiddleware#1#1"] := by decide
+
+end layers
 
 /-! ### middleware order -/
 open Model.Mw Proofs.Mw
